@@ -8,10 +8,10 @@ use std::marker::PhantomData;
 use sylvia::ctx::{ExecCtx, InstantiateCtx, QueryCtx, SudoCtx};
 
 /// A: used directly in exec; B: only inside Vec<Option<B>> in sudo; R: only as a query response; U: unused;
-/// V: only as the explicit `resp=` type of a query.
-pub struct Gen<A, B, R, U, V> {
+/// V: only as the explicit `resp=` type of a query; I: only in the instantiate message, and mentioned by A's predicate.
+pub struct Gen<A, B, R, U, V, I> {
     pub calls: Calls,
-    _p: PhantomData<(A, B, R, U, V)>,
+    _p: PhantomData<(A, B, R, U, V, I)>,
 }
 
 pub type GenResult<X> = Result<X, Echo>;
@@ -23,9 +23,11 @@ impl Small for u8 {}
 
 #[sylvia::contract]
 #[sv::error(Echo)]
-impl<A, B, R, U, V> Gen<A, B, R, U, V>
+impl<A, B, R, U, V, I> Gen<A, B, R, U, V, I>
 where
-    A: Serialize + DeserializeOwned + std::fmt::Debug + Clone + PartialEq + schemars::JsonSchema + Small + 'static,
+    // A's predicate also mentions I (used by instantiate only): it must not leak onto InstantiateMsg<I>
+    A: Serialize + DeserializeOwned + std::fmt::Debug + Clone + PartialEq + schemars::JsonSchema + Small + Pair<I> + 'static,
+    I: Serialize + DeserializeOwned + std::fmt::Debug + Clone + PartialEq + schemars::JsonSchema + 'static,
     // B's predicate also mentions the unused U: it must not leak onto SudoMsg<B>
     B: Serialize + DeserializeOwned + std::fmt::Debug + Clone + PartialEq + schemars::JsonSchema + Pair<U> + 'static,
     R: Serialize + DeserializeOwned + std::fmt::Debug + Clone + PartialEq + schemars::JsonSchema + From<u8> + 'static,
@@ -37,7 +39,7 @@ where
         Gen { calls: Calls::new(), _p: PhantomData }
     }
     #[sv::msg(instantiate)]
-    fn instantiate(&self, ctx: InstantiateCtx, seed: u64) -> Result<Response, Echo> {
+    fn instantiate(&self, ctx: InstantiateCtx, seed: u64, init: I) -> Result<Response, Echo> {
         self.calls.hit(1);
         let mut o = Obs::new(1);
         o.args[0] = seed;
@@ -114,7 +116,7 @@ pub mod proofs {
     fn c15_fx_generic_dispatch_exec() {
         let mut s = S(Cell::new(77)); let a = A(Cell::new(0)); let q = Q(Cell::new(0));
         let h: u64 = kani::any(); let x: u32 = kani::any(); let n: u64 = kani::any();
-        let c = Gen::<u32, u8, u8, (), u8>::new();
+        let c = Gen::<u32, u8, u8, (), u8, u16>::new();
         let deps = DepsMut { storage: &mut s, api: &a, querier: QuerierWrapper::<Empty>::new(&q) };
         // the message type is named with exactly the parameter it uses
         let msg: sv::ExecMsg<u32> = sv::ExecMsg::GExec { a: x, n };
@@ -133,7 +135,7 @@ pub mod proofs {
     fn c15_fx_generic_dispatch_other_instantiation() {
         let mut s = S(Cell::new(77)); let a = A(Cell::new(0)); let q = Q(Cell::new(0));
         let x: u8 = kani::any(); let n: u64 = kani::any(); let k: u64 = kani::any();
-        let c = Gen::<u8, u32, u8, String, u8>::new();
+        let c = Gen::<u8, u32, u8, String, u8, u16>::new();
         {
             let deps = DepsMut { storage: &mut s, api: &a, querier: QuerierWrapper::<Empty>::new(&q) };
             let msg: sv::ExecMsg<u8> = sv::ExecMsg::GExec { a: x, n };
@@ -196,6 +198,7 @@ pub mod proofs {
 
     #[allow(unused)]
     fn t_obligations() {
+        fn enc<X: serde::Serialize + serde::de::DeserializeOwned + schemars::JsonSchema>() {}
         // T-BEGIN fx_generic.T.exec_msg_params_exact
         // ExecMsg carries exactly A (one parameter) and can be built with a type that satisfies only A's own bounds
         let m: sv::ExecMsg<OnlyA> = sv::ExecMsg::GExec { a: OnlyA(1), n: 2 };
@@ -210,17 +213,18 @@ pub mod proofs {
         let m: sv::QueryMsg<OnlyR, OnlyR> = sv::QueryMsg::GQuery { k: 1 };
         let m2: sv::QueryMsg<OnlyR, OnlyR> = sv::QueryMsg::GRespOnly { k: 1 };
         // T-END fx_generic.T.query_msg_params_exact
-        // T-BEGIN fx_generic.T.instantiate_msg_no_params
-        let m: sv::InstantiateMsg = sv::InstantiateMsg { seed: 1 };
-        // T-END fx_generic.T.instantiate_msg_no_params
+        // T-BEGIN fx_generic.T.instantiate_msg_params_exact
+        // InstantiateMsg carries exactly I, under I's own bounds only (A's predicate mentions I but is about A)
+        let m: sv::InstantiateMsg<OnlyB> = sv::InstantiateMsg { seed: 1, init: OnlyB };
+        enc::<sv::InstantiateMsg<OnlyB>>();
+        // T-END fx_generic.T.instantiate_msg_params_exact
         // T-BEGIN fx_generic.T.messages_encodable_with_only_used_params
-        fn enc<X: serde::Serialize + serde::de::DeserializeOwned + schemars::JsonSchema>() {}
         enc::<sv::ExecMsg<OnlyA>>();
         enc::<sv::SudoMsg<OnlyB>>();
         enc::<sv::QueryMsg<OnlyR, OnlyR>>();
         // T-END fx_generic.T.messages_encodable_with_only_used_params
         // T-BEGIN fx_generic.T.accepted
-        let _ = Gen::<u32, u8, u8, (), u8>::new();
+        let _ = Gen::<u32, u8, u8, (), u8, u16>::new();
         // T-END fx_generic.T.accepted
         // T-BEGIN fx_generic.T.assoc_iface_msg_params
         // interface with associated types: ExecMsg over P only, QueryMsg over Q only
